@@ -146,3 +146,67 @@ package pickle
 //@   ensures float: (!old(comparable(x) && has(e.memo, x)) && istype(x, "starlark.Float")) ==> (olen[e.w.w] == old(olen)[e.w.w] + 9 && obytes[e.w.w][old(olen)[e.w.w]] == 71 && le64(obytes[e.w.w], old(olen)[e.w.w] + 1) == f64bits(x.(starlark.Float)))
 //@   ensures prefix: forall i: int :: 0 <= i && i < old(olen)[e.w.w] ==> obytes[e.w.w][i] == old(obytes)[e.w.w][i]
 //@   modifies heap, olen, obytes
+
+// ---------------------------------------------------------------- decoder: strings, back-references
+
+// decodeString reads exactly `len` bytes from the input (io.CopyN over the reader): assumed, because
+// io.CopyN sees the reader only through the io.Reader interface of pickle.reader.
+//@ func (*pickle.Decoder).decodeString
+//@   trusted
+//@   mode bv
+//@   ensures len(result) == len && ipos[d.r.r] == old(ipos)[d.r.r] + len
+//@   ensures body: forall i: int :: 0 <= i && i < len ==> result[i] == ibytes[d.r.r][old(ipos)[d.r.r] + i]
+//@   ensures others: forall o: value :: o != d.r.r ==> ipos[o] == old(ipos)[o]
+//@   ensures same-input: ibytes == old(ibytes)
+//@   modifies ipos
+
+//@ func (*pickle.Decoder).get variant bv
+//@   mode bv
+//@   requires d != nil
+//@   ensures  0 <= id ==> result == d.memo[id]
+
+//@ func (*pickle.Decoder).decode variant bv-strings
+//@   mode bv
+//@   requires d != nil
+//@   modifies heap, ipos
+//@   loop 0: step SHORT_BINUNICODE: when op == 140 ensures len(d.stack) == old(len(d.stack)) + 1 && istype(d.stack[old(len(d.stack))], "starlark.String") && len(d.stack[old(len(d.stack))].(starlark.String)) == conv("int", ibytes[d.r.r][old(ipos)[d.r.r] + 1]) && ipos[d.r.r] == old(ipos)[d.r.r] + 2 + conv("int", ibytes[d.r.r][old(ipos)[d.r.r] + 1])
+//@   loop 0: step SHORT_BINUNICODE-body: when op == 140 ensures forall i: int :: 0 <= i && i < conv("int", ibytes[d.r.r][old(ipos)[d.r.r] + 1]) ==> d.stack[old(len(d.stack))].(starlark.String)[i] == ibytes[d.r.r][old(ipos)[d.r.r] + 2 + i]
+//@   loop 0: step BINUNICODE: when op == 88 ensures len(d.stack) == old(len(d.stack)) + 1 && istype(d.stack[old(len(d.stack))], "starlark.String") && len(d.stack[old(len(d.stack))].(starlark.String)) == conv("int", le32(ibytes[d.r.r], old(ipos)[d.r.r] + 1)) && ipos[d.r.r] == old(ipos)[d.r.r] + 5 + conv("int", le32(ibytes[d.r.r], old(ipos)[d.r.r] + 1))
+//@   loop 0: step BINGET: when op == 104 && 0 <= conv("int", ibytes[d.r.r][old(ipos)[d.r.r] + 1]) ensures len(d.stack) == old(len(d.stack)) + 1 && ipos[d.r.r] == old(ipos)[d.r.r] + 2
+
+// Round trip of every scalar class: the decoder's step applied to the bytes the encoder's
+// postcondition prescribes yields the encoded value (bit-vector lemmas over the two contracts).
+//@ lemma C07-int1 bv <<<
+//@ (declare-const v (_ BitVec 64))
+//@ (assert (and (bvsle (_ bv0 64) v) (bvslt v (_ bv256 64))))
+//@ ; encoder int1: byte = extract[7:0] v ; decoder BININT1: zero_extend byte
+//@ (assert (not (= ((_ zero_extend 56) ((_ extract 7 0) v)) v)))
+//@ >>>
+//@ lemma C07-int2 bv <<<
+//@ (declare-const v (_ BitVec 64))
+//@ (assert (and (bvsle (_ bv256 64) v) (bvslt v (_ bv65536 64))))
+//@ ; encoder int2: lo = extract[7:0] v, hi = extract[7:0] (v >> 8) ; decoder BININT2: zext lo | zext hi << 8
+//@ (assert (not (= (bvor ((_ zero_extend 56) ((_ extract 7 0) v)) (bvshl ((_ zero_extend 56) ((_ extract 7 0) (bvashr v (_ bv8 64)))) (_ bv8 64))) v)))
+//@ >>>
+//@ lemma C07-int4 bv <<<
+//@ (declare-const v (_ BitVec 64))
+//@ (assert (and (bvsle (bvneg (_ bv2147483648 64)) v) (bvsle v (_ bv2147483647 64))))
+//@ ; encoder int4: le32 bytes == extract[31:0] v ; decoder BININT: sign_extend of that 32-bit word
+//@ (assert (not (= ((_ sign_extend 32) ((_ extract 31 0) v)) v)))
+//@ >>>
+//@ lemma C07-classes bv <<<
+//@ (declare-const v (_ BitVec 64))
+//@ ; the three fixed-width classes of the encoder partition the 32-bit signed range (no value falls between)
+//@ (assert (and (bvsle (bvneg (_ bv2147483648 64)) v) (bvsle v (_ bv2147483647 64))))
+//@ (assert (not (or (and (bvsle (_ bv0 64) v) (bvslt v (_ bv256 64))) (and (bvsle (_ bv256 64) v) (bvslt v (_ bv65536 64))) (or (bvslt v (_ bv0 64)) (bvsge v (_ bv65536 64))))))
+//@ >>>
+//@ lemma C07-float bv <<<
+//@ (declare-const f Float)
+//@ (assert (not (= (f64frombits (f64bits f)) f)))
+//@ >>>
+//@ lemma C07-len32 bv <<<
+//@ (declare-const l (_ BitVec 64))
+//@ (assert (and (bvsle (_ bv0 64) l) (bvslt l (_ bv4294967296 64))))
+//@ ; encoder long strings: le32 == extract[31:0] l ; decoder: zero_extend of that word
+//@ (assert (not (= ((_ zero_extend 32) ((_ extract 31 0) l)) l)))
+//@ >>>
